@@ -122,6 +122,13 @@ func c11Values() map[string]func() any {
 		"complex":       func() any { return complex(1, 2) },
 		"array":         func() any { return [3]int{1, 2, 3} },
 		"iface-slice":   func() any { return []fmt.Stringer{c11Stringer{"a"}, nil} },
+		"tree": func() any { // a comment thread 90 replies deep
+			var v any = map[string]any{"n": 90, "kids": []any{}}
+			for i := 89; i >= 0; i-- {
+				v = map[string]any{"n": i, "kids": []any{v}}
+			}
+			return map[string]any{"node": v}
+		},
 		"deep": func() any {
 			var v any = "leaf"
 			for i := 0; i < 200; i++ {
@@ -694,6 +701,14 @@ func c11ByteCases(r *Run, id *int) []c11Case {
 	return cases
 }
 
+func c11Range(a, b int) []int {
+	var xs []int
+	for i := a; i <= b; i++ {
+		xs = append(xs, i)
+	}
+	return xs
+}
+
 func sortStrings(xs []string) {
 	for i := 1; i < len(xs); i++ {
 		for j := i; j > 0 && xs[j] < xs[j-1]; j-- {
@@ -707,7 +722,7 @@ func init() { streams["C11"] = runC11 }
 func runC11(r *Run) {
 	r.Imports = []string{"Model.Depth"}
 	r.Rule("isolated worker processes (64 MB maximum stack, address-space limit, 4 s per case): (include-graph) every include graph over 3 files with 0-2 includes per file, includes placed plainly, inside v-for and inside v-if, entered through Load.Render, Vue.Render and RenderFragment; (cycle-shapes) cycles through slot content, slot fallbacks, layouts and nested named slots; (slot-rings) up to three named slots handed to a layout, to a component, or through a layout to a component, the content of each using any other (every ring, chain and self-reference); (slot-shapes) 11 kinds of supplied slot content (text, element, <template v-html / v-if / v-for / v-text>, wrapper, include) x 6 ways a component uses the slot once, twice or three times x default / named; " +
-		"(wrong-type) 32 directive positions x 39 data values (every kind: nil pointers, typed nil, unexported fields, non-string map keys, functions, channels, panicking Stringer, deep and cyclic structs / maps / slices); (root-data) each value as the root data; (functions) panicking, nil, non-function, wrong-arity, multi-result template functions as filters and calls, and 20 parameter kinds (arrays, pointers to arrays, typed slices, maps, channels, functions, structs, interfaces, narrow numbers, variadic, context-taking) x 25 data kinds; (bytes) spliced, token-soup and random byte strings as template sources and front-matter; (many-paths) templates with 330 distinct variable paths each, more than the engine's memo of parsed paths holds. " +
+		"(wrong-type) 32 directive positions x 39 data values (every kind: nil pointers, typed nil, unexported fields, non-string map keys, functions, channels, panicking Stringer, deep and cyclic structs / maps / slices); (root-data) each value as the root data; (functions) panicking, nil, non-function, wrong-arity, multi-result template functions as filters and calls, and 20 parameter kinds (arrays, pointers to arrays, typed slices, maps, channels, functions, structs, interfaces, narrow numbers, variadic, context-taking) x 25 data kinds; (bytes) spliced, token-soup and random byte strings as template sources and front-matter; (many-paths) templates with 330 distinct variable paths each, more than the engine's memo of parsed paths holds; (deep-nesting) elements nested 100..140, 200, 255..257, 300, 400 and 500 deep, and a component that includes itself over a thread 90 replies deep. " +
 		"Outcome must be ok or error: a panic reaching the caller, a timeout or a dead worker is a violation")
 	id := 0
 	var cases []c11Case
@@ -724,6 +739,21 @@ func runC11(r *Run) {
 		}
 		id++
 		cases = append(cases, c11Case{ID: id, Family: "many-paths", Entry: "string", Tpl: "<p>" + sb.String() + "</p>", Data: "map"})
+	}
+	// output nested deeper than any table of precomputed indentation: every depth around 128 levels (the writer
+	// keeps 256 indentation strings), some far beyond, and a component that includes itself over a thread 90 deep
+	for _, d := range append(c11Range(100, 140), 16, 64, 200, 255, 256, 257, 300, 400, 500) {
+		for _, inner := range []string{"x", "<b>x</b><i>y</i>", ""} {
+			id++
+			cases = append(cases, c11Case{ID: id, Family: "deep-nesting", Entry: "string", Data: "map", Note: fmt.Sprint("depth ", d),
+				Tpl: strings.Repeat("<div>", d) + inner + strings.Repeat("</div>", d)})
+		}
+	}
+	for _, entry := range []string{"load", "vue"} {
+		id++
+		cases = append(cases, c11Case{ID: id, Family: "deep-nesting", Entry: entry, Page: "page.vuego", Data: "tree", Note: "recursive component",
+			Files: map[string]string{"page.vuego": `<template include="tree.vuego" :node="node"></template>`,
+				"tree.vuego": `<ul><li>{{ node.n }}<template include="tree.vuego" v-for="k in node.kids" :node="k"></template></li></ul>`}})
 	}
 	res := c11RunAll(r, cases)
 	for _, c := range cases {
